@@ -324,6 +324,9 @@ func (ex *Exec) evalSelector(e *ast.SelectorExpr) Val {
 	if sel, ok := ex.info().Selections[e]; ok {
 		switch sel.Kind() {
 		case types.FieldVal:
+			if ref, ok := ex.boxedStructRef(e.X); ok {
+				return ex.fieldPath(Val{ref, types.NewPointer(ex.typeOf(e.X))}, sel.Index(), exprString(e.X))
+			}
 			base := ex.eval(e.X)
 			return ex.fieldPath(base, sel.Index(), exprString(e.X))
 		case types.MethodVal:
@@ -562,6 +565,10 @@ func (ex *Exec) evalBinary(e *ast.BinaryExpr) Val {
 		base := ex.st
 		after := ex.branch(base, a.T, func() { b = ex.eval(e.Y) })
 		// state changes in the right operand (calls with side effects) are merged
+		if ex.untouched[after] && sameEnv(after, base) {
+			ex.st = base
+			return Val{And(a.T, b.T), typ}
+		}
 		other := base.clone()
 		other.pc = And(base.pc, Not(a.T))
 		ex.st = ex.merge([]*State{after, other})
@@ -571,6 +578,10 @@ func (ex *Exec) evalBinary(e *ast.BinaryExpr) Val {
 		var b Val
 		base := ex.st
 		after := ex.branch(base, Not(a.T), func() { b = ex.eval(e.Y) })
+		if ex.untouched[after] && sameEnv(after, base) {
+			ex.st = base
+			return Val{Or(a.T, b.T), typ}
+		}
 		other := base.clone()
 		other.pc = And(base.pc, a.T)
 		ex.st = ex.merge([]*State{after, other})
